@@ -97,6 +97,11 @@ func vcText(fr *FuncResult, ax []axiomInfo, o *Obligation, model bool) string {
 			fmt.Fprintf(&b, "(declare-fun strconv_%s_range (%s (_ BitVec 64) (_ BitVec 64)) Bool)\n", k, arr8)
 		}
 	}
+	for name, d := range fr.UFDecls {
+		if strings.Contains(all, "("+name+" ") {
+			b.WriteString(d + "\n")
+		}
+	}
 	usesBytesEq := false
 	for _, h := range o.Hyps {
 		if strings.Contains(h.S, "bytes_eq") {
